@@ -5,11 +5,24 @@ use crate::{
 pub(crate) struct PlaybackStateManager {
 	state: State,
 	volume_fade: Parameter<Decibels>,
+	/// Whether a scheduled resume that can never happen (its clock no longer
+	/// exists) stops playback. Sounds stop; tracks, which have no stopped
+	/// state, stay paused instead.
+	stops_if_never_resumed: bool,
 }
 
 impl PlaybackStateManager {
+	/// Creates the playback state manager of a mixer track.
+	pub fn new_for_track() -> Self {
+		Self {
+			stops_if_never_resumed: false,
+			..Self::new(None)
+		}
+	}
+
 	pub fn new(fade_in_tween: Option<Tween>) -> Self {
 		Self {
+			stops_if_never_resumed: true,
 			state: State::Playing,
 			volume_fade: fade_in_tween
 				.map(|tween| {
@@ -95,7 +108,11 @@ impl PlaybackStateManager {
 			} => {
 				let will_never_start = start_time.update(dt, info);
 				if will_never_start {
-					self.state = State::Stopped;
+					self.state = if self.stops_if_never_resumed {
+						State::Stopped
+					} else {
+						State::Paused
+					};
 					return true;
 				}
 				if *start_time == StartTime::Immediate {
